@@ -230,6 +230,7 @@ func (x *Exec) havocCall(name string, resT *types.Tuple, args []Val, argVals []s
 	if pureFuncs[name] || strings.HasPrefix(name, "pure:") {
 		return x.pureCall(name, resT, args, st, r)
 	}
+	hm := ""
 	if !isNoEffect(name) {
 		x.vc.note("havoc: call to %s (no model/contract): memory and maps havocked", name)
 		na := x.vc.S.freshConst("alloc_call", false)
@@ -244,7 +245,7 @@ func (x *Exec) havocCall(name string, resT *types.Tuple, args []Val, argVals []s
 				keep = append(keep, eq("r", a.ref))
 			}
 		}
-		x.vc.havocMem(st, or(keep...))
+		hm = x.vc.havocMem(st, or(keep...))
 		x.vc.havocMaps(st)
 	} else {
 		// may allocate (results are fresh objects) but does not write existing memory
@@ -253,9 +254,34 @@ func (x *Exec) havocCall(name string, resT *types.Tuple, args []Val, argVals []s
 		old := st.Alloc
 		x.vc.allocP[na] = []string{old}
 		st.Alloc = na
-		x.vc.havocFrame(st, old)
+		hm = x.vc.havocFrame(st, old)
 	}
-	return x.havocVal(resT, st, r, "call_"+shortName(name))
+	res := x.havocVal(resT, st, r, "call_"+shortName(name))
+	x.resultElemFacts(hm, resT, res, r)
+	return res
+}
+
+// resultElemFacts: a slice of integers a callee returns holds values of its element type (the
+// bytes of a []byte are bytes).  Stated on the memory the call left behind.
+func (x *Exec) resultElemFacts(hm string, resT *types.Tuple, res Val, r string) {
+	if hm == "" || resT == nil {
+		return
+	}
+	for k := 0; k < resT.Len(); k++ {
+		base := 0
+		if resT.Len() > 1 {
+			base = x.vc.ls.tupleOff(resT, k)
+		}
+		x.walkRefs(resT.At(k).Type(), base, func(cell int, ft types.Type) {
+			u, ok := ft.Underlying().(*types.Slice)
+			if !ok || cell+2 >= len(res) {
+				return
+			}
+			if el := x.vc.ls.of(u.Elem()); len(el.cells) == 1 && el.cells[0].kind == kInt && el.cells[0].lo != "" {
+				x.sliceElemFacts(hm, u.Elem(), res[cell].T, res[cell+1].T, res[cell+2].T, and(r, not(eq(res[cell].T, "0"))), 0)
+			}
+		})
+	}
 }
 
 func shortName(n string) string {
@@ -453,9 +479,30 @@ func (x *Exec) siteAsserts(fr *frame, cs *CallSite, st *State, r string) {
 			}
 			env.names[fmt.Sprintf("arg%d", j)] = svOfVal(a, ty)
 		}
-		t := x.evalBool(env, sa.Cl.Expr)
+		t, missing := x.evalSiteBool(env, sa.Cl.Expr)
+		if missing != "" {
+			// the assertion speaks about an earlier call (callres / callarg) that no longer exists on
+			// the way to this site: what it demands cannot hold here
+			x.vc.note("site assertion at %s in %s: %s", sa.Callee, x.eng.fnKey(fr.fn), missing)
+			t = "false"
+		}
 		x.vc.oblige(fmt.Sprintf("%s#site:%s#%d.%d", x.eng.fnKey(fr.fn), sa.Callee, cs.Ord, k+1), "site", r, t, x.eng.pos(cs.Pos))
 	}
+}
+
+// evalSiteBool evaluates a site assertion; a reference to a call that does not occur before the
+// site is reported instead of aborting the whole function.
+func (x *Exec) evalSiteBool(env *Env, e ast.Expr) (t string, missing string) {
+	defer func() {
+		if rec := recover(); rec != nil {
+			if se, ok := rec.(specErr); ok && (strings.HasPrefix(string(se), "callres: no call") || strings.HasPrefix(string(se), "callarg: no call")) {
+				t, missing = "false", string(se)
+				return
+			}
+			panic(rec)
+		}
+	}()
+	return x.evalBool(env, e), ""
 }
 
 // siteAssumes: `after call C assume E` -- E (over arg0.., res0..) is taken as a fact about
@@ -474,6 +521,7 @@ func (x *Exec) siteAssumes(fr *frame, cs *CallSite, res Val, st *State, r string
 		x.assertHits[k]++
 		env := x.specEnv(fr, st, cs.Instr.Block(), 0)
 		env.site = cs
+		env.freshFrom = cs.StBefore.Alloc
 		for j, a := range cs.Args {
 			var ty types.Type
 			if j < len(cs.ArgVals) {
